@@ -146,7 +146,9 @@ func c19Gen(r *Run, rng *gen.Rng, corpus []string) *c19Inv {
 			// an inner extension that is the extension of a target; blanks at the edges of the name
 			"deploy.sh.tsh", "setup.bat.tsh", "install.sh.in", "run.bat.v2", "a.sh.b.tsh", "prog.tsh.tsh", "notes ", "report.tsh ", " lead.tsh", " both ends .tsh ",
 			// names a shell would expand (tsh is not a shell)
-			"~scratch.tsh", "~", "~root.tsh", "$HOME.tsh", "${x}.tsh"})
+			"~scratch.tsh", "~", "~root.tsh", "$HOME.tsh", "${x}.tsh",
+			// the target's extension in another case; the extension's text a second time further left
+			"DEPLOY.SH", "Setup.Bat", "x.Sh", "RUN.BAT", "deploy.tsh.old.tsh", "release.1.0.1", "x.tshirt.tsh", "a.sh.sh.tsh"})
 		// imports are relative to the main file's directory: keep the directory, change the base name
 		nm = path.Join(path.Dir(main), path.Base(nm))
 		if rng.Chance(33) && path.Dir(main) == "." && len(gw.Closure) == 1 {
